@@ -244,8 +244,10 @@ def rand_value(g, c, depth, maxlen=70):
     w = g.width[c]
     info = g.info[c]
     if depth <= 0 or r.random() < 0.3:
-        n = r.choice([0, 1, 2, 3, 5, 64 // w - 1, 64 // w, 64 // w + 1, r.randrange(0, maxlen)])
-        n = min(n, maxlen)
+        import math
+        per = math.lcm(64, w) // w   # symbols in the smallest whole number of storage words
+        n = r.choice([0, 1, 2, 3, 5, 64 // w - 1, 64 // w, 64 // w + 1, per, 2 * per, r.randrange(0, maxlen), r.randrange(0, maxlen)])
+        n = min(n, max(maxlen, per))
         e = r.choice(ENTRIES_TEXT + ENTRIES_BYTES + ENTRIES_SYMS)
         return f"p {e} {hx(g.text(c, n))}", n
     k = r.randrange(14)
@@ -271,7 +273,7 @@ def rand_value(g, c, depth, maxlen=70):
             return f"extk {r.choice(['filter', 'takewhile', 'fromfn', 'trait'])} {hx(g.text(c, m))} {v}", n + m
         return f"ext {hx(g.text(c, m))} {v}", n + m
     if k in (6, 7):
-        e, m = rand_slice(g, c, depth - 1, 20)
+        e, m = rand_slice(g, c, depth - 1, 20 if r.random() < 0.7 else 70)
         return f"{'append' if k == 6 else 'prepend'} {v} {e}", n + m
     if k == 8:
         e, m = rand_slice(g, c, depth - 1, 20)
@@ -431,6 +433,26 @@ def gen_C06(g, tier):
             # (reversed bounds s > e are outside the property; in release bitvec's drain does not check them, so they are not generated)
             lines.append(f"{c} show remove bee {n} {n} {base}")
             lines.append(f"{c} show remove bii 0 {n} {base}")
+        # word geometry: receivers and argument windows whose bit length is an exact multiple of 64 (whole storage
+        # words), the window starting on and off a word boundary of its parent (seeded change C06h: a "whole words"
+        # fast path of append that copied only the aligned body of a misaligned window)
+        import math
+        per = math.lcm(64, w) // w
+        recvs = [0, per, per - 1] if tier == "quick" else [0, 1, per - 1, per, per + 1, 2 * per]
+        alens = [per, 2 * per] if tier == "quick" else [per - 1, per, per + 1, 2 * per, 3 * per]
+        leads = [0, 1, per - 1] if tier == "quick" else sorted({0, 1, 2, per // 2, per - 1, per, per + 1})
+        for n in recvs:
+            base = f"p str {hx(g.text(c, n))}"
+            for m in alens:
+                for lead in leads:
+                    arg = offset_slice(g, c, g.text(c, m), lead)
+                    lines.append(f"{c} show append {base} {arg}")
+                    lines.append(f"{c} show prepend {base} {arg}")
+                    lines.append(f"{c} show insert {r.choice(sorted({0, n // 2, n}))} {base} {arg}")
+                    if lead == 1:
+                        lines.append(f"{c} raw append {base} {arg}")
+                        lines.append(f"{c} show append append {base} {arg} {arg}")
+                        lines.append(f"{c} show ext {hx(g.text(c, per))} append {base} {arg}")
         # long random histories crossing word boundaries, from every production route
         for _ in range(6 if tier == "quick" else 150):
             v, n = rand_value(g, c, r.randrange(2, 7 if tier == "quick" else 12), 200)
